@@ -144,6 +144,18 @@ PROPS["C11"] = {
     ],
 }
 
+PROPS["C13"] = {
+    "mir": "c13",
+    "level": "other",
+    "explanation": "Symbolic checking over the real MIR (z3): (1) path summaries of the loop-free PermissionCache::can_read / can_write against the statement's rule (admin, explicit grant, role unless overridden, REVOKE denies), both directions; (2) in every handler that checks a permission (STORE, QUERY, DEFINE, permission and user management) the data / management effect is unreachable unless auth is off, or a user id is present and it is the bypass id or the permission call returned true; (3) data flow of dispatch_command: which handlers receive the identity at all.",
+    "trusted_base": MIR_TRUSTED + ["the promoted constant compared with the user id in the handlers is BYPASS_USER_ID (promoted bodies are not decoded)"],
+    "outside": [
+        "HMAC verification, session expiry, rate limiting, the per-connection gates of the four front ends, BATCH",
+        "that no creatable user id equals the reserved bypass id (validate_user_id: string code, not decided)",
+        "'takes effect for the next request' (histories), sequence queries' second event type",
+    ],
+}
+
 # Properties not (or not yet) claimed, each with the reason. Entries are removed from here
 # when a check for the property is registered in PROPS.
 NOT_APPLICABLE = {
@@ -151,7 +163,6 @@ NOT_APPLICABLE = {
     "C06": "check not built yet",
     "C07": "check not built yet",
     "C12": "check not built yet",
-    "C13": "check not built yet",
     "C14": "check not built yet",
     "C15": "group.rs/matcher.rs operate on HashMap<String, GroupedRowIndices> and HashMap-backed candidate zones; at 3-4 min per hash-map operation under Kani no harness with two events per side finishes, and the two-pointer sweep is a data-dependent loop the MIR path engine cannot summarise",
     "C17": "check not built yet",
